@@ -71,7 +71,8 @@ Viol(inv, class)  == [l |-> l, inv |-> inv, class |-> class]
 Same == UNCHANGED <<n, x, prs, kv, kp, kprop, kh>>
 
 \* ---------------------------------------------------------------- level 2 pieces
-SoundViol(q, v, p, pr) == {Viol("PeerStateSound", sv[1]) : sv \in SoundViolations(q, v, p, pr)}
+\* reported at the step that makes the peer state unsound (not again at every later line)
+SoundViol(q, v, p, pr) == {Viol("PeerStateSound", sv[1]) : sv \in SoundViolations(q, v, p, pr) \ SoundViolations(prs, kv, kp, kprop)}
 SendViol(nn, before, after, ms) ==
   UNION {   FailIf(~Truthful(nn, ms[k]), Viol("SendTruthful", ms[k].k))
        \cup FailIf(Redundant(before, ms[k]), Viol("NoRedundantSend", ms[k].k))
